@@ -63,6 +63,8 @@ def configs(tier):
             out.append({'kind': 'index_of', 'nl': nl, 'na': na})
     for n in range(1, (4 if tier == 'quick' else 5)):
         out.append({'kind': 'grouped_mean', 'n': n, 'V': 4 if tier == 'quick' else 5, 'dtype': DTYPES[n % 4]})
+    for n, vdt in ((2, 'int8'), (3, 'uint8'), (2, 'int16')):
+        out.append({'kind': 'grouped_mean', 'n': n, 'V': 3, 'dtype': 'int32', 'vdtype': vdt})
     for n in range(1, (4 if tier == 'quick' else 5)):
         out.append({'kind': 'model', 'n': n, 'T': 3, 'dtype': DTYPES[n % 4]})
     for n in range(1, 4):
@@ -191,9 +193,14 @@ def run_config(cfg, e):
         elif kind == 'grouped_mean':
             n, dt, V = cfg['n'], cfg['dtype'], cfg['V']
             xs, sc = _vec(e, 'c', n, dt, hi=V - 1)
-            vs = [e.real('v%d' % i) for i in range(n)]
-            val = snp.ndarray(snp._fromlist(vs, (n,)), 'float64')
-            e.case_builder = lambda ev: {'kind': kind, 'sc': ev(xs), 'dtype': dt, 'values': ev(vs)}
+            vdt = cfg.get('vdtype', 'float64')
+            if vdt == 'float64':
+                vs = [e.real('v%d' % i) for i in range(n)]
+            else:
+                # a narrow integer quantity (its sum must not be accumulated in that type)
+                vs = [e.int('v%d' % i, int(np.iinfo(vdt).min), int(np.iinfo(vdt).max)) for i in range(n)]
+            val = snp.ndarray(snp._fromlist(vs, (n,)), vdt)
+            e.case_builder = lambda ev: {'kind': kind, 'sc': ev(xs), 'dtype': dt, 'values': ev(vs), 'vdtype': vdt}
             try:
                 out = arr.grouped_mean(val, sc)
                 res = snp.asarray(out).a.tolist()
@@ -203,7 +210,7 @@ def run_config(cfg, e):
             e.prove(len(res) == len(present), 'wrong number of groups')
             for cid, r in zip(present, res):
                 cnt = ssum([ite(x == cid, 1, 0) for x in xs])
-                tot = ssum([ite(x == cid, v, SymReal(0)) for x, v in zip(xs, vs)])
+                tot = ssum([ite(x == cid, v, SymReal(0) if vdt == 'float64' else 0) for x, v in zip(xs, vs)])
                 # r == tot / cnt  <=>  r * cnt == tot ; cnt takes finitely many values
                 e.prove(sor(*[sand(cnt == k, r * k == tot) for k in range(1, n + 1)]),
                         'mean of cluster %d wrong' % cid)
@@ -307,7 +314,7 @@ def replay(case):
         return None if list(map(int, out)) == want else '_index_of(%s, %s) = %s' % (case['arr'], case['lookup'], list(out))
     if kind == 'grouped_mean':
         sc = np.array(case['sc'], dtype=case['dtype'])
-        v = np.array(case['values'], dtype=np.float64)
+        v = np.array(case['values'], dtype=case.get('vdtype', 'float64'))
         try:
             out = arr.grouped_mean(v, sc)
         except Exception as ex:
